@@ -138,3 +138,8 @@ pub fn check_no_leak(class_prefix: &str) -> VResult {
     }
     Ok(())
 }
+
+/// Generator-side switch (never read during execution): force the C party into every run.
+pub fn force_c_party() -> bool {
+    std::env::var("SIM_CPARTY").map(|v| v == "1").unwrap_or(false)
+}
